@@ -17,7 +17,7 @@ def is_poll(body):
 def op_arm(body, evs):
     if not is_poll(body):
         return True
-    return any(e.name == 'BR' and e.data['label'] == 'fstate' and e.data['outcome'] == 'Zero' for e in evs)
+    return any(e.name == 'RD' and e.data['field'] == 'recv_count' and e.sec is not None for e in evs)
 
 
 def is_drain(body):
